@@ -921,6 +921,7 @@ func main() {
 	pkgs := flag.String("pkgs", "", "comma-separated package directories (default: the pion/turn set)")
 	noOrders := flag.Bool("noorders", false, "do not extract the Teardown step orders")
 	consts := flag.String("consts", "", "write the package-level integer constants of the module as Coq definitions here and stop")
+	ordersOnly := flag.String("ordersonly", "", "write only the Teardown step orders (Coq definitions) here, print them as JSON, and stop")
 	flag.Parse()
 	modPath = *module
 	if *pkgs != "" {
@@ -1032,6 +1033,20 @@ func main() {
 		if !found {
 			t.errs = append(t.errs, fmt.Sprintf("guards file names function %s, which does not exist", name))
 		}
+	}
+	if *ordersOnly != "" {
+		otext, ords, oerr := t.orders()
+		if oerr != nil {
+			fmt.Fprintln(os.Stderr, "lockskel: step orders:", oerr)
+			os.Exit(3)
+		}
+		if err := os.WriteFile(*ordersOnly, []byte(otext), 0o644); err != nil {
+			fmt.Fprintln(os.Stderr, "lockskel:", err)
+			os.Exit(2)
+		}
+		js, _ := json.Marshal(ords)
+		fmt.Println(string(js))
+		return
 	}
 	for _, f := range t.fns {
 		c := &fctx{t: t, p: f.pkg, f: f}
